@@ -736,6 +736,20 @@ func tablePath(selector string) string {
 	return strings.TrimSuffix(selector, ".")
 }
 
+// rowUnderAlias is the row a row scope holds under its table's alias: the
+// scope of a subquery over an aliased table is {alias: row, "<-": document}
+func rowUnderAlias(scope Map) Map {
+	if _, isRowScope := scope["<-"]; !isRowScope || len(scope) != 2 {
+		return nil
+	}
+	for key, value := range scope {
+		if row, ok := value.(Map); ok && key != "<-" {
+			return row
+		}
+	}
+	return nil
+}
+
 func BuildFromAliasedTable(query *Query, as string, expr sqlparser.SimpleTableExpr) error {
 	switch expr := expr.(type) {
 	case sqlparser.TableName:
@@ -758,6 +772,15 @@ func BuildFromAliasedTable(query *Query, as string, expr sqlparser.SimpleTableEx
 			data, err := ExecReader(query.data, tableName)
 			if err != nil {
 				return err
+			}
+			// the scope of a row that stands under its table's alias ({c: row}):
+			// a nested table of the row may be named without the alias, as the
+			// row's columns may (EXISTS (SELECT ... FROM orders) FROM customers c)
+			if under := rowUnderAlias(query.data); data == nil && under != nil && !(qualifier == "" && tableName == "dual") {
+				data, err = ExecReader(under, tableName)
+				if err != nil {
+					return err
+				}
 			}
 			switch data := data.(type) {
 			case CteEvaluation:
